@@ -1404,6 +1404,9 @@ def seq_method(engine, st, method, args, dest_ty):
             out.insert(pos, x)
         s.items[:] = out
         return UnitV()
+    if method in ('sort', 'sort_unstable') and isinstance(s, VecV) and all(isinstance(deref_all(x), Opaque) for x in s.items):
+        s.items.sort(key=lambda x: deref_all(x).name)        # strings known by their text
+        return UnitV()
     if method in ('chunks', 'chunks_exact'):
         n = args[1].concrete()
         if n is None or n <= 0:
